@@ -66,11 +66,23 @@ type engine struct {
 	cancel context.CancelFunc
 	stream *streams.Stream
 	rm     *resources.ResourceManagement
-	nGC    int   // GC goroutines of this engine
-	nextGC int64 // ns: next instant at which the GC goroutines are due (all share the interval)
+	nGC    int     // GC goroutines alive in this process (all loads of this case)
+	gens   []gcGen // one entry per load of the configuration that started collectors
 }
 
-func qname(i int) string { return fmt.Sprintf("q%d", i) }
+// the collectors one load of the configuration started: they registered their first timer at the load instant and share
+// the interval. A reload leaves the collectors of the engine it replaces running (as the gateway does).
+type gcGen struct {
+	n    int
+	next int64 // ns: next instant at which they are due
+	step int64
+}
+
+// quota ids are unique per case: whatever the process keeps per quota id does not carry over from one case to the next
+// (a case replayed alone behaves as in the batch); a reload inside a case uses the same ids again.
+var caseSeq int
+
+func qname(i int) string { return fmt.Sprintf("q%d_%d", i, caseSeq) }
 
 func filterYAML(flt, indent string, always bool) string {
 	url := host + "/*"
@@ -231,17 +243,12 @@ func newEngine(c caseCfg) (*engine, error) {
 	if err != nil {
 		return nil, err
 	}
+	caseSeq++
 	e := &engine{cfg: c, dir: dir}
 	for _, d := range []string{"flows", "quotas", "path_params"} {
 		if err := os.MkdirAll(filepath.Join(dir, d), 0o755); err != nil {
 			return nil, err
 		}
-	}
-	if err := os.WriteFile(filepath.Join(dir, "quotas", "quotas.yaml"), []byte(quotaYAML(c)), 0o644); err != nil {
-		return nil, err
-	}
-	if err := os.WriteFile(filepath.Join(dir, "flows", "flow.yaml"), []byte(flowYAML(c)), 0o644); err != nil {
-		return nil, err
 	}
 	environment.SetStreamsFlowsDirectory(filepath.Join(dir, "flows"))
 	os.Setenv("LUNAR_PROXY_QUOTAS_DIRECTORY", filepath.Join(dir, "quotas"))
@@ -254,27 +261,47 @@ func newEngine(c caseCfg) (*engine, error) {
 	cm := context_manager.Get().WithContext(ctx).SetMockClock()
 	e.clk = cm.GetClock().(*clock.MockClock)
 	e.clk.Set(time.Unix(0, c.t0))
-	for _, q := range c.quotas {
-		if q.conc {
-			e.nGC++
-		}
+	if err := e.load(c); err != nil {
+		e.close()
+		return nil, err
+	}
+	return e, nil
+}
+
+// load writes the configuration files and builds an engine from them in this process, the way
+// HandlingDataManager.initializeStreams does at start-up and on every reload (streams.NewStream -> quota loader ->
+// NewQuota -> NewConcurrentStrategy with the same quota ids; Initialize; then the new engine serves). The engine that
+// served so far is dropped; its collectors keep running, as in the gateway.
+func (e *engine) load(c caseCfg) error {
+	if err := os.WriteFile(filepath.Join(e.dir, "quotas", "quotas.yaml"), []byte(quotaYAML(c)), 0o644); err != nil {
+		return err
+	}
+	if err := os.WriteFile(filepath.Join(e.dir, "flows", "flow.yaml"), []byte(flowYAML(c)), 0o644); err != nil {
+		return err
 	}
 	st, err := streams.NewStream()
-	if err != nil {
-		e.close()
-		return nil, err
-	}
-	// every GC goroutine has read the clock and registered its first timer at t0
+	// every `go runGC()` of this load has been executed: the collectors that exist now are the ones there are (the
+	// harness waits for those, not for the number it would like to see)
+	_, total := gcParked()
+	started := total - e.nGC
+	e.nGC = total
+	// each of them has read the clock and registered its first timer at the load instant
 	waitGC(e.nGC)
-	e.nextGC = c.t0 + c.gcSec*int64(time.Second)
-	if err := st.Initialize(); err != nil {
-		e.close()
-		return nil, err
+	if started > 0 {
+		step := c.gcSec * int64(time.Second)
+		e.gens = append(e.gens, gcGen{n: started, next: e.clk.Now().UnixNano() + step, step: step})
 	}
+	if err != nil {
+		return err
+	}
+	if err := st.Initialize(); err != nil {
+		return err
+	}
+	e.cfg = c
 	e.stream = st
 	f := reflect.ValueOf(st).Elem().FieldByName("resources")
 	e.rm = reflect.NewAt(f.Type(), unsafe.Pointer(f.UnsafeAddr())).Elem().Interface().(*resources.ResourceManagement)
-	return e, nil
+	return nil
 }
 
 func (e *engine) close() {
@@ -297,14 +324,29 @@ func (e *engine) close() {
 
 // advance moves the mock clock by d ns; every GC instant on the way is visited exactly (clock set to the
 // due instant, GC goroutines run and re-arm at that instant) before the clock moves on.
-func (e *engine) advance(d int64) {
+func (e *engine) advance(d int64) (ticked bool) {
 	target := e.clk.Now().UnixNano() + d
-	for e.nGC > 0 && e.nextGC <= target {
-		e.clk.Set(time.Unix(0, e.nextGC))
+	for {
+		next := int64(-1)
+		for _, g := range e.gens {
+			if next < 0 || g.next < next {
+				next = g.next
+			}
+		}
+		if next < 0 || next > target {
+			break
+		}
+		e.clk.Set(time.Unix(0, next))
 		waitGC(e.nGC)
-		e.nextGC += e.cfg.gcSec * int64(time.Second)
+		for i := range e.gens {
+			if e.gens[i].next == next {
+				e.gens[i].next += e.gens[i].step
+			}
+		}
+		ticked = true
 	}
 	e.clk.Set(time.Unix(0, target))
+	return ticked
 }
 
 type counters interface {
